@@ -201,7 +201,11 @@ def gen_case(r, hazard=None):
             cdef(x, "s", None)
             if r.chance(1, 2):
                 cdef(x, "s", b"abc")
+        if ty == "s" and r.chance(1, 6):     # NULL string: rejected, nothing defined yet
+            cdef(x, "s", None)
         cdef(x, ty, rand_val(r, ty))
+        if ty == "s" and r.chance(1, 8):     # NULL string for a defined identifier: rejected (not "duplicated")
+            cdef(x, "s", None)
         if r.chance(1, 5):     # duplicate definition: rejected, first one stays
             ty2 = r.choice("ibfs")
             cdef(x, ty2, rand_val(r, ty2))
@@ -233,8 +237,8 @@ def gen_case(r, hazard=None):
             x = r.choice(list(types) + [9]) if r.chance(1, 6) else r.choice(list(types))
             ty = types.get(x, "i") if r.chance(3, 4) else r.choice("ibfs")
             v = rand_val(r, ty)
-            if ty == "s" and types.get(x) != "s" and r.chance(1, 3):
-                v = None          # NULL string to a variable that is not a string / unknown: an error code
+            if ty == "s" and r.chance(1, 4):
+                v = None          # NULL string: an error code whatever the variable is
             if hazard == "null-scanner" and types.get(x) == "s":
                 ty, v = "s", None
             ops.append(("sd:%d:%d:%s" % (s, x, val_model(ty, v)), ["sel %d" % s, "sdef%s %s %s" % (ty, NAMES[x], val_harness(ty, v))]))
@@ -345,9 +349,9 @@ def run(chk):
             crashed = any(l.startswith("crash") for l in lines[pos:pos + len(want_lines)]) or (
                 len(got) < len(want_lines) and any(l.startswith("crash") for l in lines[pos:]))
             if mt == "crash":
-                # the model says the code misbehaves here
-                key = {"cr": "null-string-then-create", "rs": "null-string-then-create", "sd": "scanner-null-string",
-                       "sv": "save-after-string-redefine"}.get(kind, "model-crash-" + kind)
+                # the model of the code says: misbehaves here.  The only such place left is saving after a
+                # rules-level string redefinition (known finding, key save-after-string-redefine)
+                key = "save-after-string-redefine" if kind == "sv" else "model-crash-" + kind
                 if crashed:
                     chk.violation(key, "%s: the implementation crashes at '%s' (%s) as the model of the code predicts: %s" % (
                         cid, tok, " / ".join(hl)[:120], [l for l in lines[pos:] if l.startswith("crash")][:1]), replay)
@@ -358,7 +362,10 @@ def run(chk):
                 dead = True
                 break
             if crashed:
-                chk.violation("crash-" + kind, "%s: the implementation crashes at '%s' (%s); model: %s" % (cid, tok, " / ".join(hl)[:120], mt), replay)
+                null_c = any(t.startswith("cd:") and t.endswith(":sNULL") for t, _ in c["ops"])
+                key = ("scanner-null-string" if kind == "sd" and tok.endswith(":sNULL") else
+                       "null-string-then-create" if null_c and kind in ("cr", "rs", "sc") else "crash-" + kind)
+                chk.violation(key, "%s: the implementation crashes at '%s' (%s); model: %s" % (cid, tok, " / ".join(hl)[:120], mt), replay)
                 dead = True
                 break
             pos += len(want_lines)
@@ -436,7 +443,7 @@ def run(chk):
                   "== != < <= > >= + - * unary-, contains/icontains/startswith/istartswith/endswith/iendswith/iequals/==/!=, truth "
                   "values, not/and/or; then 6-16 rules-level / scanner-level defines (right type, wrong type, unknown identifier, NULL "
                   "string), scanner creations (3 slots), scans, yr_rules_scan_mem, destroys, save; plus targeted hazard histories "
-                  "(NULL string at compiler / scanner level, save after string redefinition). distinct = (operation kind, model "
+                  "(NULL string first at compiler / scanner level, save after string redefinition). distinct = (operation kind, model "
                   "outcome, value type) and distinct verdict vectors")
     for cid, c in cases[:3]:
         chk.sample({"case": cid, "ops": [t for t, _ in c["ops"]][:14], "rules": [c_text(x, None) for x in c["conds"]][:4]})
